@@ -18,6 +18,25 @@ CHECKS = {
  "C11": dict(tech="TLC trace validation (TraceDiscipline.tla): syscall descriptor ledger + /proc/self/fd listing around every call",
              text="For every call of the scenario catalogue (all feature sets, cold/warm, descriptor 0 free, attacker- and fault-injected) the ledger of descriptors opened and not closed and the before/after listing must equal {returned fd} (+ the one process-lifetime procfs root), returned fd close-on-exec, lent descriptors untouched.",
              note="lazy global procfs handle attributed by identity (procfs root, once per process)", ref="6/C11"),
+
+ "C03": dict(tech="TLC invariants OutsideFrame/ResultInside on RootOps.tla (all path spellings) + ptrace-scheduled attacker sweeps over every mutating operation judged by TLC trace validation (TraceFS.tla)",
+             text="Static: TLC checks that no argument spelling makes the single *at call act on or return anything outside the root, and the dot-name/escaping spellings are replayed traced. Dynamic: every attacker action of the repertoire before every tree-relevant syscall of every mutating op; TLC replays all logged mutations, recomputes everIn and judges every library mutation / real open / returned descriptor.",
+             note="attacker does not move the root dentry; single openat2 atomic-or-EAGAIN; quick tier samples non-priority placements; known finding F-C03-mkdir-all-below-new-dir is listed", ref="6/C03"),
+ "C04": dict(tech="TLC-generated case families (Lookup.tla, RootOps.tla) + open-flag lattice, each replayed on the real library with openat2 present and masked (seccomp ENOSYS), outcomes compared field by field",
+             text="Same tree and arguments on both feature sets: success/failure, error class+errno, result inode, F_GETFL image (without O_NOFOLLOW), FD_CLOEXEC, resulting tree; lookups, single-entry mutations, mkdir_all/remove_all spellings, flag lattice restricted to flag sets openat2 accepts.",
+             note="bounded instances; <= 40 link traversals; flag sets rejected by openat2's validation are outside the quantifier", ref="6/C04"),
+ "C10": dict(tech="ptrace fault injection at every index of the real syscall sequence (single faults, EAGAIN sequences, fd exhaustion) judged by TLC (TraceFault.tla clean-failure contract + TraceFS containment)",
+             text="For every scenario call x feature set x cold/warm the real injectable-syscall sequence is recorded and each (index, errno) is re-run; TLC evaluates NoPanic, Terminates, ErrorOrSame (success only if the outcome equals the unfaulted run), OutsideFrame, NoLeak and the EAGAIN retry rule on every outcome record.",
+             note="faults only in file-related syscalls; quick tier samples (index, errno) with a seed; thorough enumerates all", ref="6/C10"),
+ "C12": dict(tech="TLC sequential model DoMkdirAll (RootOps.tla) generating every path spelling + two-process ptrace schedules (<=2 preemptions) judged by TLC postconditions (TraceFS!PostViolations)",
+             text="Every spelling of the bounded instance is executed traced on both backends; two concurrent mkdir_all callers are interleaved at relevant-syscall granularity; TLC checks on the real snapshots: handle = in-root resolution, only new directories named by the path were added with the requested mode, nothing removed, all concurrent callers succeed.",
+             note="umask 022; no setgid directories; schedules bounded to two preemptions; known finding F-C12-empty-path listed", ref="6/C12"),
+ "C13": dict(tech="TLC sequential model DoRemoveAll (RootOps.tla) generating every path spelling + two-process ptrace schedules judged by TLC postconditions (TraceFS!PostViolations)",
+             text="TLC checks on the real snapshots: nothing added, everything removed lies in the initial subtree of the named entry, the entry and its whole subtree are gone on success, dot names refused, concurrent callers all succeed.",
+             note="schedules bounded to two preemptions", ref="6/C13"),
+ "C14": dict(tech="TLC (RootOps.tla) computes expected errno class and final tree for every (tree, op, spelling); replayed three-way: library with openat2, library without, and the harness' raw *at call on (openat2-RESOLVE_IN_ROOT parent, name)",
+             text="ExactEffect: outcome and final tree of create/create_file/remove_file/remove_dir/rename equal those of the corresponding *at call on (in-root parent, final name); kernel model cross-checked (0 mismatches on the unchanged tree).",
+             note="bounded instance (two trees, spellings <= 2-3 components); modes compared as inode kind", ref="6/C14"),
 }
 
 NA = {
